@@ -19,6 +19,7 @@ VARIANTS = ("omp", "serial")
 CASE_TIMEOUT = 1200
 RULE = ("cases = zoo crystal x supercell x NAC (none|Wang|Gonze-Lee) x full/compact x build (OpenMP|serial); per case: run_qpoints over the full 2^3 product "
         "(eigenvectors x group velocities x dynamical matrices), band path from Gamma (with the path direction as NAC direction) with/without band connection, "
+        "four segments in one call (A->Gamma, Gamma->B, B->C, C->Gamma) vs each segment alone, vs the dynamical-matrix object (NAC direction = segment direction at Gamma) and D e = lambda e, "
         "Mesh and IterMesh, dynamical_matrix.run, get_frequencies*, get_dynamical_matrix_at_q; yaml/hdf5 of qpoints, band and mesh parsed back; "
         "non-trivial = more than one band and max|D|>0; distinct = (crystal, smat, pmat, nac, layout, build)")
 ASSUMPTIONS = [
@@ -187,6 +188,47 @@ def run_case(c):
                     break
     if np.abs(np.sort(band_freqs[(True, False)], axis=1) - np.sort(band_freqs[(False, False)], axis=1)).max() > 1e-9 * max(np.abs(band_freqs[(False, False)]).max(), 1e-12):
         bad("band_connection_changes_set", "band connection changes the per-q multiset of frequencies")
+    # ---- several segments in one call (joined at Gamma, joined elsewhere, ending at Gamma): every (segment, q) equals the segment computed
+    #      alone, run_qpoints at the same q (at Gamma with the segment's direction as NAC direction), and D e = lambda e for the reported pairs
+    G = np.zeros(3)
+    A = np.array([[0.5, 0, 0], [0.5, 0.5, 0], [0, 0.5, 0.5]][rng.integers(3)], float)
+    B = np.array([[0, 0, 0.5], [0.5, 0.5, 0.5], [0.3, 0.1, 0.45]][rng.integers(3)], float)
+    C = rng.uniform(-0.5, 0.5, 3)
+    segs = [np.linspace(A, G, 5), np.linspace(G, B, 5), np.linspace(B, C, 4), np.linspace(C, G, 4)]
+    for conn in (False, True):
+        ph.run_band_structure(segs, with_eigenvectors=True, is_band_connection=conn)
+        bd = ph.get_band_structure_dict()
+        fr_all = [np.array(f) for f in bd["frequencies"]]
+        ev_all = [np.array(e) for e in bd["eigenvectors"]]
+        obs["n_band_runs"] = obs.get("n_band_runs", 0) + 1
+        for si, seg in enumerate(segs):
+            ph.run_band_structure([seg], with_eigenvectors=True, is_band_connection=conn)
+            fr1 = np.array(ph.get_band_structure_dict()["frequencies"][0])
+            lam_m, lam_1 = lam_of(fr_all[si], factor), lam_of(fr1, factor)
+            e = np.abs(np.sort(lam_m, axis=1) - np.sort(lam_1, axis=1)).max()
+            obs["n_joined_segments"] = obs.get("n_joined_segments", 0) + 1
+            if e > 1e-10 * lscale:
+                k = int(np.argmax(np.abs(np.sort(lam_m, axis=1) - np.sort(lam_1, axis=1)).max(axis=1)))
+                bad("band_segment_context", "segment %d of a %d-segment path (connection=%s): eigenvalues at q=%s differ from the same segment computed alone by %.3e (scale %.3e)" % (
+                    si, len(segs), conn, np.round(seg[k], 4).tolist(), e, lscale), band_connection=conn, joined_at_gamma=bool(np.abs(seg[k]).max() < 1e-12))
+            qdir = seg[0] - seg[-1]
+            for k, q in enumerate(seg):
+                at_gamma = bool(np.abs(q).max() < 1e-12)
+                if c["nac"] and at_gamma:
+                    ph.dynamical_matrix.run(q, q_direction=qdir)
+                else:
+                    ph.dynamical_matrix.run(q)
+                Dk = np.array(ph.dynamical_matrix.dynamical_matrix)
+                lk = np.linalg.eigvalsh(Dk)
+                if np.abs(np.sort(lam_m[k]) - lk).max() > 1e-10 * lscale:
+                    bad("band_vs_direct", "segment %d (connection=%s): eigenvalues at q=%s differ from the dynamical-matrix object%s by %.3e" % (
+                        si, conn, np.round(q, 4).tolist(), " (NAC direction = segment direction)" if at_gamma and c["nac"] else "", np.abs(np.sort(lam_m[k]) - lk).max()),
+                        band_connection=conn, joined_at_gamma=at_gamma)
+                    break
+                if np.abs(Dk @ ev_all[si][k] - ev_all[si][k] * lam_m[k][None, :]).max() > 1e-9 * dscale:
+                    bad("eigen_residual", "segment %d (connection=%s): reported eigenvectors/frequencies at q=%s do not satisfy D e = lambda e" % (si, conn, np.round(q, 4).tolist()),
+                        band_connection=conn, joined_at_gamma=at_gamma)
+                    break
     # ---- mesh (stored and iterated)
     mesh = [int(v) for v in rng.integers(2, 4, 3)]
     ph.run_mesh(mesh, with_eigenvectors=True, with_group_velocities=True, is_mesh_symmetry=False)
